@@ -167,6 +167,8 @@ class Ctx:
             "violations": len(self.violations),
         }
         ev["coverage"].update(self.notes)
+        if os.environ.get("VERIF_NO_EVIDENCE"):   # mutant runs against scratch copies must not overwrite evidence
+            return ev
         (ROOT / "evidence").mkdir(exist_ok=True)
         (ROOT / "evidence" / f"{self.pid}.json").write_text(json.dumps(ev, indent=1, default=str) + "\n")
         return ev
